@@ -13,10 +13,11 @@ pub mod common;
 pub mod determ;
 pub mod edit;
 pub mod edits;
+pub mod exec;
 pub mod small;
 
 pub fn all_ids() -> Vec<&'static str> {
-    vec!["C01", "C02", "C03", "C04", "C05", "C06", "C07", "C08", "C09", "C10", "C11", "C12", "C13", "C14", "C15", "C21", "C22", "C23", "C24", "C25", "C26", "C28", "C29", "C30"]
+    vec!["C01", "C02", "C03", "C04", "C05", "C06", "C07", "C08", "C09", "C10", "C11", "C12", "C13", "C14", "C15", "C16", "C17", "C18", "C19", "C20", "C21", "C22", "C23", "C24", "C25", "C26", "C28", "C29", "C30"]
 }
 
 pub fn get(id: &str) -> Option<Box<dyn Driver>> {
@@ -36,6 +37,11 @@ pub fn get(id: &str) -> Option<Box<dyn Driver>> {
         "C13" => Box::new(small::AddedTypes),
         "C14" => Box::new(small::AddedLocals),
         "C15" => Box::new(c15::PlainLowering),
+        "C16" => Box::new(exec::c16()),
+        "C17" => Box::new(exec::c17()),
+        "C18" => Box::new(exec::c18()),
+        "C19" => Box::new(exec::c19()),
+        "C20" => Box::new(exec::c20()),
         "C21" => Box::new(c15::BlockAlt),
         "C22" => Box::new(c15::SpecialNotLost),
         "C23" => Box::new(c23::SideEffects),
